@@ -17,23 +17,28 @@ set_option linter.unusedSectionVars false
 open NiftyVerif.NewtonRe NiftyVerif.Iter
 
 variable {K V : Type} [Field K] [LinearOrder K] [IsStrictOrderedRing K] [AddCommGroup V] [Module K V]
-variable (c : Cfg K) (f : V → K × V) (hessp : V → V → V) (ip : V → V → K) (gradnorm : V → K) (cgnorm : V → K)
+variable (c : Cfg K) (f : V → K × V) (nan : V → Bool) (hessp : V → V → V) (ip : V → V → K) (gradnorm : V → K) (cgnorm : V → K)
   (cg : CgArgs K → V → V → V × Int) (nrm : V → K)
 
 /-- **Eager Newton-CG never goes uphill**: for all objectives, oracles and limits the returned `fun` is the energy of the
     returned point, `jac` its gradient, and it is not above the energy of the start. -/
-theorem ncg_never_uphill (x0 : V) (r : NRes K V) (h : ncgEager c f hessp ip gradnorm cgnorm cg x0 = .ok r) :
+theorem ncg_never_uphill (x0 : V) (r : NRes K V) (h : ncgEager c f nan hessp ip gradnorm cgnorm cg x0 = .ok r) :
     r.fn = (f r.x).1 ∧ r.jac = (f r.x).2 ∧ r.fn ≤ (f x0).1 := by
   unfold ncgEager at h
-  exact ncgEagerLoop_inv c f hessp ip gradnorm cgnorm cg (f x0).1 c.maxiter 1 ⟨x0, (f x0).1, (f x0).2, c.oldFval⟩
+  simp only [] at h
+  split_ifs at h with hn
+  exact ncgEagerLoop_inv c f nan hessp ip gradnorm cgnorm cg (f x0).1 c.maxiter 1 ⟨x0, (f x0).1, (f x0).2, c.oldFval⟩
     ⟨rfl, rfl, le_refl _⟩ r h
 
 /-- **Compiled Newton-CG never goes uphill** (direct invariant of the compiled loops; no guard). -/
-theorem static_ncg_never_uphill (x0 : V) (r : NRes K V) (h : ncgStatic c f hessp ip gradnorm cgnorm cg x0 = some r) :
+theorem static_ncg_never_uphill (x0 : V) (r : NRes K V) (h : ncgStatic c f nan hessp ip gradnorm cgnorm cg x0 = some r) :
     r.fn = (f r.x).1 ∧ r.jac = (f r.x).2 ∧ r.fn ≤ (f x0).1 := by
   unfold ncgStatic at h
   simp only [] at h
-  cases hl : ncgStaticLoop c f hessp ip gradnorm cgnorm cg c.maxiter
+  by_cases hn : nan x0 = true
+  · simp [hn] at h
+  simp only [hn, Bool.false_eq_true, if_false] at h
+  cases hl : ncgStaticLoop c f nan hessp ip gradnorm cgnorm cg c.maxiter
       { status := if c.maxiter = 0 then 0 else -2, it := 0, pos := x0, energy := (f x0).1, g := (f x0).2,
         oldE := c.oldFval } with
   | none => rw [hl] at h; simp at h
@@ -41,7 +46,7 @@ theorem static_ncg_never_uphill (x0 : V) (r : NRes K V) (h : ncgStatic c f hessp
     rw [hl] at h
     simp only [Option.map_some, Option.some.injEq] at h
     subst h
-    exact ncgStaticLoop_inv c f hessp ip gradnorm cgnorm cg (f x0).1 c.maxiter _ v ⟨rfl, rfl, le_refl _⟩ hl
+    exact ncgStaticLoop_inv c f nan hessp ip gradnorm cgnorm cg (f x0).1 c.maxiter _ v ⟨rfl, rfl, le_refl _⟩ hl
 
 /-- **Program equivalence**: the compiled minimiser returns exactly the eager minimiser's `(x, status, fun, jac, nit)` and
     raises exactly where it raises — for every objective, every CG oracle, every `miniter/maxiter/absdelta/xtol`
@@ -52,13 +57,13 @@ theorem static_ncg_never_uphill (x0 : V) (r : NRes K V) (h : ncgStatic c f hessp
 theorem static_ncg_eq_eager (e : K) (he : c.erf = some e) (he0 : e ≠ 0) (hold : c.oldFval ≠ some 0)
     (hf0 : ∀ x, (f x).1 ≠ 0)
     (hcg0 : c.absdelta = none → ∀ m p g, cg ⟨none, m⟩ p g = cg ⟨some 0, m⟩ p g) (x0 : V) :
-    match ncgEager c f hessp ip gradnorm cgnorm cg x0 with
-    | .ok r => ncgStatic c f hessp ip gradnorm cgnorm cg x0 = some r
-    | .error _ => ncgStatic c f hessp ip gradnorm cgnorm cg x0 = none := by
-  apply ncgStatic_sim c f hessp ip gradnorm cgnorm cg
+    match ncgEager c f nan hessp ip gradnorm cgnorm cg x0 with
+    | .ok r => ncgStatic c f nan hessp ip gradnorm cgnorm cg x0 = some r
+    | .error _ => ncgStatic c f nan hessp ip gradnorm cgnorm cg x0 = none := by
+  apply ncgStatic_sim c f nan hessp ip gradnorm cgnorm cg
     (fun s => Inv f (f x0).1 s ∧ s.oldF ≠ some 0)
   · intro s i s' hP hstep
-    have hinv := ncgEagerStep_inv c f hessp ip gradnorm cgnorm cg (f x0).1 i s hP.1
+    have hinv := ncgEagerStep_inv c f nan hessp ip gradnorm cgnorm cg (f x0).1 i s hP.1
     rw [hstep] at hinv
     simp only at hinv
     refine ⟨hinv.1, ?_⟩
@@ -85,12 +90,27 @@ theorem static_ncg_eq_eager (e : K) (he : c.erf = some e) (he0 : e ≠ 0) (hold 
 theorem static_stack_eq_eager_stack (base : CgRe.Cfg K) (pa pr : Bool) (hmax : 0 < CgRe.maxiterEff base)
     (e : K) (he : c.erf = some e) (he0 : e ≠ 0) (hold : c.oldFval ≠ some 0) (hf0 : ∀ x, (f x).1 ≠ 0)
     (habs : c.absdelta ≠ none) (x0 : V) :
-    match ncgEager c f hessp ip gradnorm cgnorm (cgOracle base pa pr ip nrm hessp) x0 with
-    | .ok r => ncgStatic c f hessp ip gradnorm cgnorm (cgOracleStatic base pa pr ip nrm hessp) x0 = some r
-    | .error _ => ncgStatic c f hessp ip gradnorm cgnorm (cgOracleStatic base pa pr ip nrm hessp) x0 = none := by
+    match ncgEager c f nan hessp ip gradnorm cgnorm (cgOracle base pa pr ip nrm hessp) x0 with
+    | .ok r => ncgStatic c f nan hessp ip gradnorm cgnorm (cgOracleStatic base pa pr ip nrm hessp) x0 = some r
+    | .error _ => ncgStatic c f nan hessp ip gradnorm cgnorm (cgOracleStatic base pa pr ip nrm hessp) x0 = none := by
   rw [cgOracleStatic_eq base pa pr ip nrm hessp hmax]
-  exact static_ncg_eq_eager c f hessp ip gradnorm cgnorm (cgOracle base pa pr ip nrm hessp) e he he0 hold hf0
+  exact static_ncg_eq_eager c f nan hessp ip gradnorm cgnorm (cgOracle base pa pr ip nrm hessp) e he he0 hold hf0
     (fun h => absurd h habs) x0
+
+/-- **Full-stack equivalence with the minimiser's default inner configuration** (neither `resnorm` nor `absdelta` pinned by
+    `cg_kwargs`), also for `absdelta = None`: for a symmetric bilinear `ip ≥ 0` and a linear self-adjoint Hessian the C15
+    conjugate gradient answers alike for `absdelta=None` and `absdelta=0.` (`cgOracle_abs0`: in exact arithmetic the energy
+    difference of a CG step is never negative), which discharges the oracle hypothesis of `static_ncg_eq_eager`. -/
+theorem static_stack_eq_eager_stack_default (base : CgRe.Cfg K) (hmax : 0 < CgRe.maxiterEff base)
+    (hip : SymmBilin ip) (hnn : ∀ a, 0 ≤ ip a a)
+    (hm : ∀ pos, Linear (K := K) (hessp pos)) (hsa : ∀ pos, CgRe.SelfAdj ip (hessp pos))
+    (e : K) (he : c.erf = some e) (he0 : e ≠ 0) (hold : c.oldFval ≠ some 0) (hf0 : ∀ x, (f x).1 ≠ 0) (x0 : V) :
+    match ncgEager c f nan hessp ip gradnorm cgnorm (cgOracle base false false ip nrm hessp) x0 with
+    | .ok r => ncgStatic c f nan hessp ip gradnorm cgnorm (cgOracleStatic base false false ip nrm hessp) x0 = some r
+    | .error _ => ncgStatic c f nan hessp ip gradnorm cgnorm (cgOracleStatic base false false ip nrm hessp) x0 = none := by
+  rw [cgOracleStatic_eq base false false ip nrm hessp hmax]
+  exact static_ncg_eq_eager c f nan hessp ip gradnorm cgnorm (cgOracle base false false ip nrm hessp) e he he0 hold hf0
+    (fun _ m p g => cgOracle_abs0 base ip nrm hessp hip hnn hm hsa m p g) x0
 
 /-- the excluded region of `static_ncg_eq_eager` is real: after an iterate with energy exactly `0` the eager code
     (truthiness test) falls back to `absdelta/100` while the compiled code uses `energy_reduction_factor·(0 − energy)` -/
@@ -105,12 +125,12 @@ theorem zero_energy_args_differ :
 /-- **The line search accepts the first trial of its schedule that does not increase the energy** (trials 0–5 at
     `pos − 2⁻ᵏ·nat_g`, trials 6–8 at `pos − 2⁻⁽ᵏ⁻⁶⁾·γ/|curv|·g`), and fails only if none of the nine does. -/
 theorem line_search_accepts_first (pos : V) (energy : K) (g natg : V) :
-    let R := lineSearchEager f hessp ip pos energy g natg
+    let R := lineSearchEager f nan hessp ip pos energy g natg
     let tp := trialPos (K := K) pos natg (resetDir ip hessp pos g)
-    (R.found = true ↔ ∃ k, k < 9 ∧ (f (tp k)).1 ≤ energy)
+    (R.found = true ↔ ∃ k, k < 9 ∧ Acc f nan energy (tp k))
     ∧ (R.found = true → ∃ k, k < 9 ∧ R.trials = k + 1 ∧ R.newPos = tp k ∧ R.newEnergy = (f (tp k)).1
-        ∧ (f (tp k)).1 ≤ energy ∧ ∀ k', k' < k → energy < (f (tp k')).1) :=
-  lineSearchEager_first f hessp ip pos energy g natg
+        ∧ Acc f nan energy (tp k) ∧ ∀ k', k' < k → ¬ Acc f nan energy (tp k')) :=
+  lineSearchEager_first f nan hessp ip pos energy g natg
 
 /-- **Negative curvature ⇒ progress along −g** (see `ncgEagerStep_negcurv`): with the C15 conjugate gradient as inner
     solver (every base configuration, every stopping parameters the minimiser derives; `_raise_nonposdef = False` as
@@ -123,18 +143,18 @@ theorem negcurv_progress (base : CgRe.Cfg K) (pa pr : Bool) (i : Nat) (s : NSt K
     (hm : Linear (K := K) (hessp s.pos)) (hsa : CgRe.SelfAdj ip (hessp s.pos)) (hnn : ∀ a, 0 ≤ ip a a)
     (hmax : 0 < CgRe.maxiterEff base) (hg0 : ip s.g s.g ≠ 0)
     (hcurv : ip s.g (hessp s.pos s.g) < 0)
-    (hex : ∃ k, k < 9 ∧ (f (s.pos - ((sched k : K) * (ip s.g s.g / -ip s.g (hessp s.pos s.g))) • s.g)).1 ≤ s.energy) :
+    (hex : ∃ k, k < 9 ∧ Acc f nan s.energy (s.pos - ((sched k : K) * (ip s.g s.g / -ip s.g (hessp s.pos s.g))) • s.g)) :
     ∃ k, k < 9 ∧ 0 < (sched k : K) * (ip s.g s.g / -ip s.g (hessp s.pos s.g))
-      ∧ (f (s.pos - ((sched k : K) * (ip s.g s.g / -ip s.g (hessp s.pos s.g))) • s.g)).1 ≤ s.energy
+      ∧ Acc f nan s.energy (s.pos - ((sched k : K) * (ip s.g s.g / -ip s.g (hessp s.pos s.g))) • s.g)
       ∧ (∀ k', k' < k →
-          s.energy < (f (s.pos - ((sched k' : K) * (ip s.g s.g / -ip s.g (hessp s.pos s.g))) • s.g)).1)
-      ∧ (match ncgEagerStep c f hessp ip gradnorm cgnorm (cgOracle base pa pr ip nrm hessp) i s with
+          ¬ Acc f nan s.energy (s.pos - ((sched k' : K) * (ip s.g s.g / -ip s.g (hessp s.pos s.g))) • s.g))
+      ∧ (match ncgEagerStep c f nan hessp ip gradnorm cgnorm (cgOracle base pa pr ip nrm hessp) i s with
          | .next s' => s'.pos = s.pos - ((sched k : K) * (ip s.g s.g / -ip s.g (hessp s.pos s.g))) • s.g
              ∧ s'.energy = (f s'.pos).1
          | .stop (.ok r) => r.status = 0
              ∧ r.x = s.pos - ((sched k : K) * (ip s.g s.g / -ip s.g (hessp s.pos s.g))) • s.g ∧ r.fn = (f r.x).1
          | .stop (.error _) => False) :=
-  ncgEagerStep_negcurv c f hessp ip gradnorm nrm base pa pr cgnorm i s hip hm hsa hnn hmax hg0 hcurv hex
+  ncgEagerStep_negcurv c f nan hessp ip gradnorm nrm base pa pr cgnorm i s hip hm hsa hnn hmax hg0 hcurv hex
 
 /-- **Trust-region Newton-CG never goes uphill** — for EVERY sub-problem oracle (no hypothesis on the sub-problem
     solver: not even that its predicted value is below the current one), every objective, radius schedule and limit;
